@@ -1744,9 +1744,10 @@ func (m *Machine) recoverFinalPhase() {
 			continue
 		}
 
-		if t.latestHandlerIsEnter {
+		// activations are reverted by removing, deactivations by re-adding
+		if slices.Contains(t.Enters, s) {
 			activeStates = slicesWithout(activeStates, s)
-		} else {
+		} else if !slices.Contains(activeStates, s) {
 			activeStates = append(activeStates, s)
 		}
 	}
